@@ -1,5 +1,6 @@
 import BearVerif.Props.C01
 import BearVerif.Lemmas.BearCost2
+import BearVerif.Lemmas.BearErrCost
 /-!
   C09 — call-time checking cost does not grow with container size. Cost = number of
   container items read (`x[i]`, `next(iter(x))`, `next(iter(x.values()))`, `x[key]`),
@@ -56,5 +57,17 @@ theorem C09_noncollection_zero (o : Nat) (h : Hint) (x : Obj) (hnc : W.sub x.cls
         rw [not_isinst W r (by simpa [Pith.idx] using hk)]; simp [hnc]
       rw [and_first_true W r ha (by simp [hs]) (or_true W r hnc')] at he
       simp at he; omega
+
+/-- **The explanation path is bounded by the hint alone too.** When a check rejects, the violation finder (default
+    O1 strategy) re-derives the cause; instrumented with the number of container items it looks at (`causeRC`,
+    whose verdict is proved equal to the finder model `hasCause` of C03), it reads at most `causeBound h` items —
+    one per container level, a key and a value per mapping level, the positions of fixed tuples, summed over union
+    members — for every object of any size and nesting and every draw. -/
+theorem C09_explainer_cost (h : Hint) (x : Obj) :
+    (causeRC W conf r h x).1 = hasCause W conf r .O1 h x ∧ (causeRC W conf r h x).2 ≤ causeBound h :=
+  ⟨causeRC_fst W conf r h x, causeRC_le W conf r h x⟩
+
+/-- the bound does not mention the object: growing a container never grows it -/
+example : causeBound (.seq 6 (.mapping 13 (.cls 10) (.seq 6 (.cls 7)))) = 4 := by decide +kernel
 
 end BearVerif.Bear
